@@ -688,6 +688,9 @@ class AmpBox(Dict[bytes, bytes]):
                 raise TypeError(f"Unicode value for key {k!r} not allowed: {v!r}")
             if len(k) > MAX_KEY_LENGTH:
                 raise TooLong(True, True, k, None)
+            if len(k) == 0:
+                # A zero-length key is indistinguishable from the end of the box.
+                raise ValueError("Empty AMP key not allowed")
             if len(v) > MAX_VALUE_LENGTH:
                 raise TooLong(False, True, v, k)
             for kv in k, v:
